@@ -19,7 +19,7 @@ export RUST_BACKTRACE=0 CARGO_NET_OFFLINE=true VERIF_ROOT="$WORK/verif"
 FEAT="--no-default-features"; case " $IDS " in *" C20 "*) FEAT="" ;; esac
 (cd "$WORK/verif/harness" && cargo build --release --offline -q $FEAT 2>/dev/null) || { echo "base build failed"; exit 2; }
 printf "%-42s" mutant; for id in $IDS; do printf " %4s" "$id"; done; echo
-for m in "$SRC_VERIF"/mutants/$GLOB.diff; do
+for m in "${MATRIX_DIR:-$SRC_VERIF/mutants}"/$GLOB.diff; do
   name=$(basename "$m" .diff)
   if ! git -C "$WORK/repo" apply "$m" 2>/dev/null; then printf "%-42s patch-does-not-apply\n" "$name"; continue; fi
   if ! (cd "$WORK/verif/harness" && cargo build --release --offline -q $FEAT 2>"$WORK/build.log"); then
